@@ -11,7 +11,7 @@ import (
 )
 
 func checkC01(p *Program, r *Report) {
-	r.Explanation = "Decided necessary conditions on the agreement between the builder and the readers of the succinct encoding: (kind) for every wire bitmap the set of index kinds (r64/r128/s32) given where it is built is a singleton and equals the kind every rank/select site assumes (library calls and the hand-inlined RankIndex[i>>6]+popcount idiom; receiver-relative sites of (*VLenArray).get etc. bound at their call sites), and each query is given the words and index of one bitmap; (layout) the node-bitmap layout has one definition: every function that computes an inner node's bit range computes the same normalised terms for from/to/short-bitmap with the same guards, the derived constants are (257-17)*BigInnerCnt, ShortSize-17 and mask(ShortSize), and the builder's (label word size, bitmap size) pairs are exactly (4,17) and (8,257); (vlen-width) the fixed-vs-variable width layout of a value array is decided by a per-element fold (a flag cleared in the element loop under size(current) != size(previous)), not from aggregates; (labelrange) the function that turns the query byte at the cursor into a label index returns, by interval evaluation over the byte type with wrap-around, exactly 0 for an exhausted key, [1,256] for 8-bit words and [1,16] for 4-bit words — so every label bit the builder can set is addressable for every byte value 0x00-0xff and nothing is sign-extended or wrapped."
+	r.Explanation = "Decided necessary conditions on the agreement between the builder and the readers of the succinct encoding: (kind) for every wire bitmap the set of index kinds (r64/r128/s32) given where it is built is a singleton and equals the kind every rank/select site assumes (library calls and the hand-inlined RankIndex[i>>6]+popcount idiom; receiver-relative sites of (*VLenArray).get etc. bound at their call sites), and each query is given the words and index of one bitmap; (layout) the node-bitmap layout has one definition: every function that computes an inner node's bit range computes the same normalised terms for from/to/short-bitmap with the same guards, the derived constants are (257-17)*BigInnerCnt, ShortSize-17 and mask(ShortSize), and the builder's (label word size, bitmap size) pairs are exactly (4,17) and (8,257); (capacity) a presence bitmap whose set bits are ordinals derived from builder counters is built with a capacity that is, as a normalised term, the last ordinal plus one in the same counters — so it covers the ordinals of all elements, not just of those that have an entry (the leaf-prefix bitmap was sized by a counter that stays 0 without values); (vlen-width) the fixed-vs-variable width layout of a value array is decided by a per-element fold (a flag cleared in the element loop under size(current) != size(previous)), not from aggregates; (labelrange) the function that turns the query byte at the cursor into a label index returns, by interval evaluation over the byte type with wrap-around, exactly 0 for an exhausted key, [1,256] for 8-bit words and [1,16] for 4-bit words — so every label bit the builder can set is addressable for every byte value 0x00-0xff and nothing is sign-extended or wrapped."
 	r.NotCovered = "That ranks select the right child, nibble selection, the keep-mask/leaf-ordinal arithmetic, word-straddling correctness beyond sibling agreement, the value-array layout decision (fixed vs variable width)."
 	r.Trusted = []string{"go/ssa", "openacid/low/bitmap index builders and rank/select (kinds by contract)"}
 
@@ -19,14 +19,18 @@ func checkC01(p *Program, r *Report) {
 	checkLayoutSiblings(p, r, "C01.layout")
 	checkLabelRange(p, r)
 	checkVLenWidth(p, r, "C01.vlen-width")
+	checkCapacity(p, r, "C01.capacity")
+	checkLeafDecoder(p, r, "C01.leaf-decoder")
 }
 
 // ---------------------------------------------------------------------------
 
-func checkKinds(p *Program, r *Report) {
+func checkKinds(p *Program, r *Report) { checkKindsAs(p, r, "C01.kind") }
+
+func checkKindsAs(p *Program, r *Report, rule string) {
 	ke := runKindEngine(p)
 	w, rd, paths := ke.byPath()
-	r.Rule("C01.kind", "E7", "index kind at every rank/select site = kind the bitmap was built with", 16)
+	r.Rule(rule, "E7", "index kind at every rank/select site = kind the bitmap was built with", 16)
 	for _, pr := range dedupStrings(sortStr(ke.problems)) {
 		r.Bad("rank/select argument pairing", "", pr)
 	}
@@ -579,6 +583,144 @@ func checkLabelRange(p *Program, r *Report) {
 			"value ranges per branch are "+got+", want "+want+": some key byte values (e.g. >= 0x80 or 0xff) are mapped to a label bit the builder never sets for them, or wrap to the end-of-key slot")
 	}
 	_ = sort.Strings
+}
+
+// checkCapacity: see the explanation of C01 (capacity).
+func checkCapacity(p *Program, r *Report, rule string) {
+	r.Rule(rule, "E6", "presence bitmaps cover the whole ordinal domain of their readers", 2)
+	n := 0
+	for _, f := range p.FuncsOf(triePath) {
+		if f.Synthetic != "" || f.Signature.Recv() == nil || len(f.Params) == 0 {
+			continue
+		}
+		recv := f.Params[0]
+		e := newEval(p)
+		e.env[recv] = S("RECV")
+		for _, c := range callsIn(f) {
+			call, ok := c.(*ssa.Call)
+			if !ok {
+				continue
+			}
+			if _, ok := builtKinds(call); !ok || len(call.Call.Args) < 2 {
+				continue
+			}
+			dst := storedTo(call)
+			if !strings.HasSuffix(dst, ".PresenceBM") {
+				continue
+			}
+			capT := e.eval(call.Call.Args[1])
+			if isK(capT) {
+				continue
+			}
+			// the index list: a field of the receiver
+			ld, ok := deref(call.Call.Args[0])
+			if !ok {
+				continue
+			}
+			_, idxField, fa := fieldOfAddr(ld)
+			if fa == nil || fa.X != ssa.Value(recv) {
+				continue
+			}
+			// append sites of that field in methods of the same receiver type
+			var ordinals []string
+			var where []string
+			opaque := false
+			for _, g := range p.FuncsOf(triePath) {
+				if g.Synthetic != "" || g.Signature.Recv() == nil || len(g.Params) == 0 || !types.Identical(g.Params[0].Type(), recv.Type()) {
+					continue
+				}
+				ge := newEval(p)
+				ge.env[g.Params[0]] = S("RECV")
+				// a receiver captured by a closure lives in a local cell
+				recvCells := map[ssa.Value]bool{}
+				instrsOf(g, func(_ *ssa.BasicBlock, in ssa.Instruction) {
+					if st, ok := in.(*ssa.Store); ok && st.Val == ssa.Value(g.Params[0]) {
+						if al, ok := st.Addr.(*ssa.Alloc); ok {
+							recvCells[al] = true
+							ge.env[al] = S("RECV")
+						}
+					}
+				})
+				isRecv := func(v ssa.Value) bool {
+					if v == ssa.Value(g.Params[0]) {
+						return true
+					}
+					if ld, ok := deref(v); ok && recvCells[ld] {
+						return true
+					}
+					return false
+				}
+				instrsOf(g, func(_ *ssa.BasicBlock, in ssa.Instruction) {
+					st, ok := in.(*ssa.Store)
+					if !ok {
+						return
+					}
+					_, fv, fa2 := fieldOfAddr(st.Addr)
+					if fa2 == nil || fv != idxField || !isRecv(fa2.X) {
+						return
+					}
+					ap, ok := st.Val.(*ssa.Call)
+					if !ok {
+						return
+					}
+					bi, ok := ap.Call.Value.(*ssa.Builtin)
+					if !ok || bi.Name() != "append" || len(ap.Call.Args) != 2 {
+						return
+					}
+					// the appended element: varargs array store
+					sl, ok := ap.Call.Args[1].(*ssa.Slice)
+					if !ok {
+						opaque = true
+						return
+					}
+					al, ok := sl.X.(*ssa.Alloc)
+					if !ok {
+						opaque = true
+						return
+					}
+					for _, ref := range *al.Referrers() {
+						if ia, ok := ref.(*ssa.IndexAddr); ok {
+							for _, r2 := range *ia.Referrers() {
+								if s2, ok := r2.(*ssa.Store); ok {
+									t := ge.eval(s2.Val)
+									ts := t.String()
+									if strings.Contains(ts, "phi:") || strings.Contains(ts, "?") {
+										opaque = true
+										return
+									}
+									// parameters other than the receiver make the ordinal opaque
+									for _, prm := range g.Params[1:] {
+										if containsTerm(t, S(prm.Name())) {
+											opaque = true
+											return
+										}
+									}
+									ordinals = append(ordinals, O("add", t, K(1)).String())
+									where = append(where, p.Pos(s2.Pos()))
+								}
+							}
+						}
+					}
+				})
+			}
+			if opaque || len(ordinals) == 0 {
+				r.Note("capacity of %s: ordinals of %s are not builder-counter terms (not decided by this rule)", dst, idxField.Name())
+				continue
+			}
+			n++
+			r.Func(shortFn(f))
+			bad := ""
+			for i, o := range ordinals {
+				if o != capT.String() {
+					bad = fmt.Sprintf("capacity is %s but the ordinals set at %s run up to %s - 1: elements beyond the last one with an entry are outside the bitmap and reading their bit is out of range", capT, where[i], o)
+				}
+			}
+			r.Check(bad == "", "capacity of "+dst, p.Pos(call.Pos()), "capacity = last ordinal + 1 = "+capT.String(), bad)
+		}
+	}
+	if n == 0 {
+		r.Unk("presence bitmap capacities", "", "no presence bitmap with counter-derived ordinals found in the builder")
+	}
 }
 
 func init() { checks["C01"] = checkC01 }
